@@ -199,9 +199,7 @@ def rule_isolation(ctx: Ctx) -> None:
     for target in (f"{DISP}.EventDispatcher._dispatch_event", f"{DISP}.EventDispatcher._execute_scheduled"):
         for fn, m, c in ci.callers_of(target):
             n_sites += 1
-            par = c.parent  # type: ignore[attr-defined]
-            pushed = isinstance(par, ast.Call) and c in par.args and ci.resolves_to(
-                ci.callees(m, par), f"{HELP}.TaskPool.push")
+            pushed = _flows_only_into_push(ctx, fn, m, c)
             ctx.check(pushed, "C14.2", f"{target.rsplit('.', 1)[-1]} coroutine goes through TaskPool.push", fn, c,
                       "argument of TaskPool.push", "handler/job coroutine is started outside the bounded pool")
     ctx.floor("C14.2", "creation sites of handler/job coroutines", n_sites, 4)
@@ -223,6 +221,26 @@ def rule_isolation(ctx: Ctx) -> None:
                 ctx.check(allowed, "C14.2", "tasks are spawned only by TaskPool.push / TaskGroup.create_task", fn, c,
                           "allowed spawner", "a task is spawned outside the pool and the task group: it is neither "
                           "bounded nor cancelled/awaited at the end of the run")
+
+
+def _flows_only_into_push(ctx: Ctx, fn, m, c: ast.Call) -> bool:
+    """The coroutine object created by ``c`` is handed to TaskPool.push -- directly, or through a local temporary whose only
+    use is as the argument of TaskPool.push."""
+    ci = A.call_index(ctx)
+    par = c.parent  # type: ignore[attr-defined]
+    if isinstance(par, ast.Call) and c in par.args and ci.resolves_to(ci.callees(m, par), f"{HELP}.TaskPool.push"):
+        return True
+    if isinstance(par, ast.Assign) and len(par.targets) == 1 and isinstance(par.targets[0], ast.Name) and par.value is c and fn is not None:
+        nm = par.targets[0].id
+        uses = [n for n in A.body_nodes(fn, shallow=False) if isinstance(n, ast.Name) and n.id == nm and isinstance(n.ctx, ast.Load)]
+        if not uses:
+            return False
+        for u in uses:
+            up = u.parent  # type: ignore[attr-defined]
+            if not (isinstance(up, ast.Call) and u in up.args and ci.resolves_to(ci.callees(m, up), f"{HELP}.TaskPool.push")):
+                return False
+        return True
+    return False
 
 
 # -- C14.3 ------------------------------------------------------------------------------------------------------
@@ -476,7 +494,7 @@ def rule_contextmanagers(ctx: Ctx) -> None:
     ctx.require(gets and len(sets) >= 2, "C14.5: backtesting_log_mode no longer saves/sets/restores the record factory")
     saved = gets[0].target.id if isinstance(gets[0].target, ast.Name) else None
     restore = [c for c in sets if c.args and isinstance(c.args[0], ast.Name) and c.args[0].id == saved]
-    ctx.check(bool(restore) and gets[0].stmt.lineno < min(c.lineno for c in sets), "C14.5",
+    ctx.check(bool(restore) and A.seq(gets[0].stmt) < min(A.seq(c) for c in sets), "C14.5",
               "the factory restored is the one saved before the swap", lm, lm.node, f"restores {saved}",
               "the restored log-record factory is not the one that was installed before the run",
               key_text="restore saved factory")
